@@ -72,6 +72,7 @@ func genCfg(rng *rand.Rand, profile string) Cfg {
 	c.Preserve = [][]string{{}, {}, {"name"}, {"name", "email"}}[rng.Intn(4)]
 	c.OneTime = rng.Intn(100) < 65
 	c.DefaultPaths = rng.Intn(100) < 25
+	wrap := rng.Intn(100) < 30
 	switch profile {
 	case "lock":
 		c.Mods = ensure(c.Mods, "auth", "lock")
@@ -96,6 +97,7 @@ func genCfg(rng *rand.Rand, profile string) Cfg {
 		c.Mods = ensure(c.Mods, "auth")
 		c.Expire = true
 	}
+	c.WrapRemember = wrap && c.has("remember")
 	return c
 }
 
@@ -1016,7 +1018,23 @@ func (g *Gen) scenarios() []intent {
 			case 2:
 				out = append(out, g.interleave()...)
 			}
-			out = append(out, SymStep{Kind: "dropsess", U: b}, app)
+			next := app
+			if c.WrapRemember && g.rng.Intn(3) != 0 {
+				// with the global remember wrapper the cookie also logs the browser in on a module route
+				route := pickS(g.rng, "Login", "Logout", "OtpAdd", "TotpSetup", "SmsSetup", "RecoveryRegen", "RecoverStart", "Register", "TotpRemove")
+				m := "POST"
+				if route == "Logout" {
+					m = c.LogoutMethod
+				} else if g.rng.Intn(3) == 0 {
+					m = "GET"
+				}
+				next = g.req(b, m, route, nil)
+				if route == "Login" && m == "POST" {
+					v := g.known()
+					next = g.loginStep(b, v, Desc{K: "pw", U: pickS(g.rng, v, u)}, false)
+				}
+			}
+			out = append(out, SymStep{Kind: "dropsess", U: b}, next)
 			if g.rng.Intn(2) == 0 {
 				out = append(out, SymStep{Kind: "dropsess", U: b}, app)
 			}
